@@ -7,3 +7,4 @@ pub mod router_harness; // C02-B / C10-A: E-ASYNC world around the real Connecti
 pub mod specmodel; // C13: reference model of the speculative-execution contract
 pub mod execharness; // C06-B/C13-B: recording retry policy + history listener for runs through H-EXEC
 pub mod bfs_reuse; // C02-A: vcore E-BFS that reuses the object rebuilt for `enabled` (expensive 32768-id pre-fill)
+pub mod watchdog; // C19: a driver call that does not return becomes a violation (parent/child + monitor thread)
